@@ -347,6 +347,52 @@ mut("C07", "bottom_up_drops_nodes", L + "analysis/forward_interprocedural_fixpoi
 # order-only edits must stay silent: next() instead of next_back()
 mut("C07", "SILENT_take_smallest_first", FP, "if let Some(priority) = self.worklist.iter().next_back().cloned() {", "if let Some(priority) = self.worklist.iter().next().cloned() {", [], "processing order changed (must NOT be reported)")
 
+# ---------------- C05
+MR = L + "abstract_domain/mem_region.rs"
+mut("C05", "insert_without_top_guard", MR, """        self.clear_interval(position, size_in_bytes);
+        if !value.is_top() {
+            // top()-values do not need to be explicitly saved, as they don't contain any information anyway.
+            Arc::make_mut(&mut self.inner)
+                .values
+                .insert(position, value);
+        }""", """        self.clear_interval(position, size_in_bytes);
+        Arc::make_mut(&mut self.inner)
+            .values
+            .insert(position, value);""", ["R2|insert_at_byte_index"], "Top values stored")
+mut("C05", "insert_without_clear", MR, """        self.clear_interval(position, size_in_bytes);
+        if !value.is_top() {""", """        if !value.is_top() {""", ["R3|insert_at_byte_index"], "overlapping cells not removed before a write")
+mut("C05", "clear_wrong_size", MR, "        self.clear_interval(position, size_in_bytes);\n        if !value.is_top() {", "        self.clear_interval(position, 1);\n        if !value.is_top() {", ["R3|insert_at_byte_index"], "only the first byte is cleared before a write")
+mut("C05", "merge_write_top_keeps_top", MR, """                if merged_value.is_top() {
+                    inner.values.remove(&position);
+                } else {
+                    inner.values.insert(position, merged_value);
+                }
+                return;""", """                inner.values.insert(position, merged_value);
+                return;""", ["R2|merge_write_top"], "merge_write_top stores Top")
+mut("C05", "merge_inner_no_prev_guard", MR, "            if *index >= merged_range_end {\n                // The element does not overlap a previous element", "            if *index >= merged_range_end || true {\n                // The element does not overlap a previous element", ["R3|merge_inner"], "merge keeps cells overlapping a previous cell")
+mut("C05", "mark_all_no_cleanup", MR, """            *value = value.merge(&value.top());
+        }
+        self.clear_top_values();""", """            *value = value.merge(&value.top());
+        }""", ["R2|mark_all_values_as_top"], "Top values left after marking all values")
+mut("C05", "caller_no_cleanup", L + "analysis/pointer_inference/object/id_manipulation.rs", """            elem.replace_all_ids(replacement_map);
+        }
+        inner.memory.clear_top_values();""", """            elem.replace_all_ids(replacement_map);
+        }""", ["R4|", "replace_ids"], "values_mut caller without cleanup")
+mut("C05", "helper_returns_top", MR, """            let merged = elem.merge(&T::new_top(elem.bytesize()));
+            if !merged.is_top() {
+                Some(merged)
+            } else {
+                None
+            }""", """            let merged = elem.merge(&T::new_top(elem.bytesize()));
+            Some(merged)""", ["R2|merge_or_merge_with_top"], "merge helper returns Top cells")
+mut("C05", "inner_public", MR, "    inner: Arc<Inner<T>>,\n}", "    pub inner: Arc<Inner<T>>,\n}", ["R1|private|MemRegion.inner"], "cell store made public")
+mut("C05", "range_end_only_when_kept", MR, """            merged_range_end = std::cmp::max(merged_range_end, elem_range_end);
+        }
+
+        Inner {""", """        }
+
+        Inner {""", ["R3|merge_inner|range-end"], "range end not advanced")
+
 for prop, name, spec in M:
     if name.startswith("SILENT_"):
         spec["silent"] = True
